@@ -841,6 +841,11 @@ unsafe impl Allocator for PageAlignedAllocator {
             .map_err(|err| eprintln!("mprotect error = {:?}", err))
             .ok();
 
+        // wipe the whole allocation, including spare capacity, before handing it
+        // back: Vec only ever zeroizes its initialized length, and growing or
+        // shrinking releases the old block without touching it
+        std::slice::from_raw_parts_mut(ptr.add(pagesize), layout.size()).zeroize();
+
         #[cfg(feature = "verif_hooks")]
         verif::observe_release(ptr.add(pagesize), layout.size());
 
